@@ -166,6 +166,14 @@ def tag_rec(c, facts, R, prefix_desc=''):
     c.floor(R, 'self-recursive functions over Tag', len(fns), 3)
     for need in ('oal_compiler::inference::unify::occurs', 'oal_compiler::inference::unify::unify', 'oal_compiler::inference::union::reduce'):
         target = facts.fn(need)     # alias-aware: a renamed function with the same signature is accepted
+        if target is not None and not any(fn.id == target.id for fn in fns):
+            # the entry point checks its pre-condition once and hands over to a private recursive worker written since the
+            # pinned tree (`occurs` -> `occurs_rec`): the worker is the recursive function the rule is about
+            known_ = facts.known_fns_or_aliases()
+            workers = [g for g in fns if g.qname not in known_ and g.qname.rsplit('::', 1)[0] == target.qname.rsplit('::', 1)[0]
+                       and target.hir and any(_calls(e, g.id) for e, _ in hir_walk(target.hir['body']))]
+            if workers:
+                continue
         if target is None or not any(fn.id == target.id for fn in fns):
             c.bad(R, 'anchor-missing:recursive-' + need.split('::')[-1], 'no self-recursive function `%s` over Tag found in oal_compiler::inference' % need.split('::')[-1])
     for fn0 in fns:
